@@ -19,7 +19,10 @@ CONSTANTS HasSets,    \* the attribute-presence vectors explored (SUBSET Attrs i
 
 VARIABLE c     \* the current case
 
-SrcKinds == {"local", "ebgp", "ibgp", "ibgpc", "rs", "confed"}      \* ibgpc: route-reflector client
+SrcKinds == {"local", "kernel", "ebgp", "ibgp", "ibgpc", "rs", "confed"}      \* ibgpc: route-reflector client
+\* originated by this speaker: through the API ("local") or redistributed from the kernel's routing table ("kernel").
+\* Neither was learned from a BGP peer, so neither is "reflected", and no MED was "received".
+Originated(k) == k \in {"local", "kernel"}
 DstRoles == {"Ebgp", "Ibgp", "IbgpRrClient", "RsClient", "ConfedEbgp"}
 AspShapes == {"empty", "seq2", "seq255", "set2", "cseq2_seq2", "cseq2"}
 Attrs == {"LP", "MED", "OID", "CL", "AIGP", "UT", "UN"}   \* UT/UN: unknown optional transitive / non-transitive
@@ -33,9 +36,9 @@ Cases == [src : SrcKinds, dst : DstRoles, confed : BOOLEAN, asp : AspShapes,
 
 \* a case is meaningful when ...
 Meaningful(x) ==
-  /\ (x.src = "local" => ~x.same /\ ~x.llgr)                  \* locally originated: no peer, never stale
+  /\ (Originated(x.src) => ~x.same /\ ~x.llgr)                \* locally originated: no peer, never stale
   /\ (x.src = "confed" \/ x.dst = "ConfedEbgp" => x.confed)    \* confed roles need a confederation
-  /\ (x.same => x.src # "local")
+  /\ (x.same => ~Originated(x.src))
   /\ (x.pol # "none" => x.has \in PolHasSets)
 
 IbgpLearned(k) == k \in {"ibgp", "ibgpc"}
@@ -75,9 +78,9 @@ Rewritten(x) ==
           asp    |-> Prepend(StripConfed(Shape(x.asp)), "SEQ"),
           first  |-> FirstAs(x),
           \* LOCAL_PREF / ORIGINATOR_ID / CLUSTER_LIST / AIGP removed; a received MED removed
-          absent |-> {"LP", "OID", "CL", "AIGP"} \cup (IF x.src # "local" THEN {"MED"} ELSE {}) \cup {"UN"},
+          absent |-> {"LP", "OID", "CL", "AIGP"} \cup (IF ~Originated(x.src) THEN {"MED"} ELSE {}) \cup {"UN"},
           present |-> (IF "UT" \in x.has THEN {"UT"} ELSE {}),
-          nexthop |-> IF x.src # "local" THEN "self" ELSE "any",
+          nexthop |-> IF ~Originated(x.src) THEN "self" ELSE "any",
           oid    |-> "any", cl |-> "any"]
     [] IbgpDst(x.dst) ->
          [sent   |-> TRUE,
@@ -86,7 +89,7 @@ Rewritten(x) ==
           absent |-> {"UN"},
           present |-> {"LP"} \cup (x.has \ {"UN", "OID", "CL"})
                       \cup (IF IbgpLearned(x.src) THEN {"OID", "CL"} ELSE {}),
-          nexthop |-> IF x.src # "local" THEN "orig" ELSE "any",
+          nexthop |-> IF ~Originated(x.src) THEN "orig" ELSE "any",
           \* reflected routes gain ORIGINATOR_ID (kept if already there) and the cluster-id in front
           oid    |-> IF IbgpLearned(x.src) THEN (IF "OID" \in x.has THEN "orig" ELSE "src_rid")
                      ELSE (IF "OID" \in x.has THEN "orig" ELSE "none"),
